@@ -482,7 +482,7 @@ fn udp_accounting_part(rep: &Arc<Reporter>, args: &Args) {
                 }).await
             });
             for (flow, to_refused, payload) in &plan {
-                let destination: SocketAddr = if *to_refused { "203.0.113.9:9".parse().unwrap() } else { format!("203.0.113.{}:4000", 10 + flow).parse().unwrap() };
+                let destination: SocketAddr = if *to_refused { "203.0.113.9:9".parse().unwrap() } else { format!("203.0.113.{}:{}", 10 + flow, if *flow >= 2 { 53 } else { 4000 }).parse().unwrap() }; // flows 2 and 3 are plain-DNS flows (closed by the reply that answers the last outstanding query)
                 if *to_refused { refused_bytes += payload.len() as u64; }
                 let _ = ctx_tx.send(trusttunnel::verif::pure::UdpIn { source: format!("10.8.0.2:{}", 5000 + flow).parse().unwrap(), destination, app_name: None, payload: Bytes::from(payload.clone()) });
                 if r.chance(1, 3) { tokio::time::sleep(Duration::from_millis(r.below(20_000))).await; }
